@@ -40,7 +40,7 @@ static int masi16_test(HIO_HANDLE *f, char *t, const int start)
 	if (hio_read32b(f) != MAGIC_PSM_)
 		return -1;
 
-	libxmp_read_title(f, t, 60);
+	libxmp_read_title(f, t, 59);	/* masi16_load keeps 59 bytes of the 60-byte field */
 
 	return 0;
 }
